@@ -3,7 +3,9 @@
    id_table.c), C01/XattrModel.v (xattr writer / reader).  The theorems that depend on constants probed from the
    working tree (id-table limit) come last. *)
 From Coq Require Import List NArith ZArith Bool.
-From SqfsV Require Import Base.Bytes Gen.Constants C01.GenC01 C01.Res C01.InodeModel C01.InodeProofs C01.IdProofs.
+From Coq Require Import Permutation.
+From SqfsV Require Import Base.Bytes Gen.Constants C01.GenC01 C01.Res C01.InodeModel C01.InodeProofs C01.IdProofs
+  C01.XattrModel C01.XattrProofs C01.XattrWriterProofs.
 Import ListNotations.
 Local Open Scope N_scope.
 
@@ -23,7 +25,7 @@ Theorem inode_layout_matches_headers :
   sizeof_sqfs_inode_file_t = 16 /\ sizeof_sqfs_inode_file_ext_t = 40 /\
   sizeof_sqfs_inode_slink_t = 8 /\ sizeof_sqfs_inode_dev_t = 8 /\ sizeof_sqfs_inode_dev_ext_t = 12 /\
   sizeof_sqfs_inode_ipc_t = 4 /\ sizeof_sqfs_inode_ipc_ext_t = 8 /\ sizeof_sqfs_dir_index_t = 12.
-Proof. repeat split; apply layout_ok. Qed.
+Proof. exact layout_sizes. Qed.
 
 (* ---- inode.c: whatever the block processor does through the API, every field fits the current form
         (size / block start > 32 bit => extended form is chosen before the store) ---- *)
@@ -80,6 +82,62 @@ Theorem id_limit_65536_refuted :
 Proof. exact id_old_limit_refuted_l. Qed.
 Print Assumptions id_limit_65536_refuted.
 
+(* ---- 3. xattr writer / reader ---- *)
+
+(* the writer keeps values as hexadecimal strings: encoding and decoding are inverse *)
+Theorem xattr_value_hex_rt : forall l, bytes_ok l -> from_hex (to_hex l) = l.
+Proof. exact hex_rt. Qed.
+Print Assumptions xattr_value_hex_rt.
+
+(* meaning of the pairs recorded for one inode: one pair per key, the last value given for a key wins *)
+Theorem xattr_set_meaning : forall kvs k,
+  assoc k (set_spec kvs) = assoc_last k kvs /\ NoDup (map fst (set_spec kvs)).
+Proof. exact set_meaning_l. Qed.
+Print Assumptions xattr_set_meaning.
+
+(* xattr_rt: for every sequence of key/value sets (one per inode; shared, repeated and replaced values included) that
+   the writer accepts, the flush succeeds without touching memory outside the location table, every index
+   returned by end() reads back - through id table, location table, key/value stream and out-of-line
+   references - as exactly the set recorded for it, and "no pairs" is index 0xFFFFFFFF.  The metadata block
+   layer is a parameter: any block-start functions with "seeking to the start of block k finds block k". *)
+Theorem xattr_rt :
+  forall (bsK bsT : N -> N) (bidxK bidxT : N -> option N),
+  (forall k, bidxK (bsK k) = Some k) -> (forall k, bidxT (bsT k) = Some k) -> bsT 0 = 0 ->
+  (forall k, bsK k < 281474976710656) ->
+  forall sets w idxs,
+    Forall set_ok sets -> xw_sets xw_empty sets = Ok (w, idxs) -> nlen (x_blocks w) < NOIDX ->
+    length idxs = length sets /\
+    match flush bsK bsT true w with
+    | Ok None => forall i kvs, nth_error sets i = Some kvs -> kvs = [] /\ nth_error idxs i = Some NOIDX
+    | Ok (Some img) =>
+        forall i kvs idx, nth_error sets i = Some kvs -> nth_error idxs i = Some idx ->
+          exists l, rd_all bidxK bidxT img idx = Ok l /\ Permutation l (set_spec kvs)
+    | _ => False
+    end.
+Proof. exact xattr_rt_l. Qed.
+Print Assumptions xattr_rt.
+
+(* every well-formed input is accepted (so the theorem above is not about an empty set of runs) *)
+Theorem xattr_sets_accepted : forall sets,
+  Forall set_ok sets -> exists w idxs, xw_sets xw_empty sets = Ok (w, idxs).
+Proof. exact sets_accepted_l. Qed.
+Print Assumptions xattr_sets_accepted.
+
+(* keys the format cannot hold are refused: unknown prefix, or more than 65535 bytes behind the prefix *)
+Theorem xattr_refuses_unrepresentable_keys : forall w key value,
+  (prefix_of key = None -> xw_add_kv w key value = Err c_SQFS_ERROR_UNSUPPORTED) /\
+  (forall ty sfx, prefix_of key = Some (ty, sfx) -> 65535 < nlen sfx -> xw_add_kv w key value = Err c_SQFS_ERROR_OVERFLOW).
+Proof. exact refuses_keys_l. Qed.
+Print Assumptions xattr_refuses_unrepresentable_keys.
+
+(* F06, the code before the repair: with exactly 512 blocks the unguarded store writes locations[1] of a
+   one-element table; the guarded store (the model of the repaired code) does not *)
+Theorem xattr_unguarded_location_store_refuted :
+  nlen (x_blocks w512) = 512 /\ loc_count 512 = 1 /\
+  flush store_bs store_bs false w512 = Crash /\ is_ok (flush store_bs store_bs true w512) = true.
+Proof. exact flush_unbounded_refuted_l. Qed.
+Print Assumptions xattr_unguarded_location_store_refuted.
+
 (* ---- non-vacuity ---- *)
 Definition ex_base (m : N) := mkBase m 1 2 1600000000 7.
 Example ex_inode_wf_file :
@@ -117,6 +175,34 @@ Example ex_id_run : id_run 3 [] [7; 8; 7; 9] = Ok ([7; 8; 9], [0; 1; 0; 2]).
 Proof. vm_compute. reflexivity. Qed.
 Example ex_id_refuse : id_run 3 [] [7; 8; 7; 9; 10] = Err c_SQFS_ERROR_OVERFLOW.
 Proof. vm_compute. reflexivity. Qed.
+
+(* xattr: four inodes; the second has no pairs, the third repeats the first in another order and replaces a value
+   back and forth (same block, de-duplicated), the fourth shares the long value (stored out of line) *)
+Example ex_xattr_run :
+  match xw_sets xw_empty ex_sets with
+  | Ok (w, idxs) =>
+      idxs = [0; NOIDX; 0; 1] /\
+      match flush store_bs store_bs true w with
+      | Ok (Some img) =>
+          rd_all store_bidx store_bidx img 0 = Ok [(ex_key_a, [49]); (ex_key_t, ex_long)] /\
+          rd_all store_bidx store_bidx img 1 = Ok [(ex_key_a, ex_long)] /\
+          rd_all store_bidx store_bidx img NOIDX = Ok []
+      | _ => False
+      end
+  | _ => False
+  end.
+Proof. vm_compute. repeat split; reflexivity. Qed.
+Example ex_xattr_sets_ok : Forall set_ok ex_sets.
+Proof.
+  unfold ex_sets, set_ok, kv_ok, key_ok, val_ok.
+  repeat (constructor; cbn [fst snd]); try (vm_compute; reflexivity);
+    try (eexists; eexists; split; [vm_compute; reflexivity|vm_compute; discriminate]).
+Qed.
+Example ex_xattr_meta_ok : (forall k, store_bidx (store_bs k) = Some k) /\ store_bs 0 = 0.
+Proof.
+  split; [|reflexivity]. intro k. unfold store_bidx, store_bs.
+  rewrite N.mod_mul by discriminate. rewrite N.div_mul by discriminate. reflexivity.
+Qed.
 
 (* ---- theorems that depend on what the working tree's id table really accepts (probe, GenC01.v) ---- *)
 
